@@ -79,18 +79,21 @@ Print Assumptions C06_at_most_once.
 
 (* ---- grammars with @leftrec rules ---------------------------------------------------------
    The quantifier of the property allows @leftrec rules beside the memoized ones.  The bound holds
-   for every grammar that passes OnceWF.wf_check_once: the certificate of C01 in which the body of a
-   @leftrec rule is ranked like every other body, except that the rule's own name inside its own body
-   needs no rank - while the rule is open at an offset its own calls there are answered from the
-   cache (sentinel or seed) and start nothing.  The growth loop re-runs the body at the same
-   offset: the memoized rules it reaches there were entered on the first turn and are hits on
-   every later one.  Without @leftrec rules the check is WellFormed.wf_check (C06_at_most_once is
-   this theorem's corollary). *)
+   for every grammar with a certificate that passes OnceWF.wf_check_onceX: the ranks of C01 refined
+   by the set X of @leftrec rules that are open at the current offset (their calls there are
+   answered from the cache - sentinel or seed - and start nothing).  A unit of recursion is a
+   pair (X, call or include); entering a @leftrec rule adds it to X for its body, consuming a
+   character empties X; ranks may depend on X - the plain rule `Add = left:*Expr ...` is entered
+   with Expr open and without - except that a memoized rule has ONE rank over all contexts in
+   which it is demanded.  The growth loop re-runs the body at the same offset: the memoized
+   rules it reaches there were entered on the first turn and are hits on every later one.
+   Without @leftrec rules X is always empty and the certificate is the one of C01
+   (C06_at_most_once is the corollary). *)
 Theorem C06_at_most_once_lr :
   forall (ustate : Type) (scfg : state_cfg) (tcfg : term_cfg) (fcfg : fields_cfg) (hk : hooks ustate)
-         (g : grammar) (nul : name -> bool) (rk : WellFormed.runit -> nat),
-    OnceWF.wf_check_once g nul rk = true ->
-    forall n rule_name input u,
+         (g : grammar) (nul : name -> bool) (rkX : list name -> WellFormed.runit -> nat) (U : list OnceWF.xunit),
+    OnceWF.wf_check_onceX g nul rkX U = true ->
+    forall n rule_name input u, OnceWF.memU U [] (WellFormed.UCall rule_name) = true ->
     match m_parse ustate scfg tcfg fcfg Extracted.rcfg hk g n rule_name input u with
     | (MOk _ _, gl') | (MErr _, gl') =>
       NoDup (g_evals gl') /\
@@ -99,41 +102,51 @@ Theorem C06_at_most_once_lr :
     | _ => True
     end.
 Proof.
-  intros ustate scfg tcfg fcfg hk g nul rk W.
-  exact (Once.at_most_once_lr ustate scfg tcfg fcfg Extracted.rcfg hk g nul rk W eq_refl).
+  intros ustate scfg tcfg fcfg hk g nul rkX U W.
+  exact (Once.at_most_once_lr ustate scfg tcfg fcfg Extracted.rcfg hk g nul rkX U W eq_refl).
 Qed.
 Print Assumptions C06_at_most_once_lr.
 
-(* the computed certificate: a grammar is an instance as soon as OnceWF.well_formed_once says so
-   (the harness evaluates the extracted function on every stream grammar) *)
+(* the computed certificate: a grammar is an instance, for each of its rules as the start rule, as
+   soon as OnceWF.well_formed_once_all says so (the harness evaluates the extracted function on
+   every stream grammar) *)
 Theorem C06_certified_instances :
   forall (ustate : Type) (scfg : state_cfg) (tcfg : term_cfg) (fcfg : fields_cfg) (hk : hooks ustate) (g : grammar),
-    OnceWF.well_formed_once g = true ->
-    forall n rule_name input u,
+    OnceWF.well_formed_once_all g = true ->
+    forall n rule_name input u, In rule_name (map grule_name g) ->
     match m_parse ustate scfg tcfg fcfg Extracted.rcfg hk g n rule_name input u with
     | (MOk _ _, gl') | (MErr _, gl') => NoDup (g_evals gl')
     | _ => True
     end.
 Proof.
-  intros ustate scfg tcfg fcfg hk g W n rule_name input u. unfold OnceWF.well_formed_once in W.
-  pose proof (C06_at_most_once_lr ustate scfg tcfg fcfg hk g _ _ W n rule_name input u) as H.
-  destruct (m_parse ustate scfg tcfg fcfg Extracted.rcfg hk g n rule_name input u) as [[v st|e|p|] gl']; try exact I; tauto.
+  intros ustate scfg tcfg fcfg hk g W n rule_name input u Hin. unfold OnceWF.well_formed_once_all in W.
+  apply andb_prop in W. destruct W as [W1 W2]. unfold OnceWF.well_formed_once in W1.
+  apply in_map_iff in Hin. destruct Hin as (gr & <- & Hin). rewrite forallb_forall in W2. specialize (W2 gr Hin).
+  pose proof (C06_at_most_once_lr ustate scfg tcfg fcfg hk g _ _ _ W1 n (grule_name gr) input u W2) as H.
+  destruct (m_parse ustate scfg tcfg fcfg Extracted.rcfg hk g n (grule_name gr) input u) as [[v st|e|p|] gl']; try exact I; tauto.
 Qed.
 Print Assumptions C06_certified_instances.
 
-(* not vacuous: left-recursive E over memoized T and N is certified ... *)
-Theorem C06_lr_memo_certified : OnceWF.well_formed_once OnceExamples.g_lr_memo = true.
-Proof. exact OnceExamples.lr_memo_certified. Qed.
+(* not vacuous: left-recursive E over memoized T and N is certified, and so is the usual peginator
+   way of writing left recursion - through a plain rule - with memoized operands ... *)
+Theorem C06_lr_memo_certified :
+  OnceWF.well_formed_once_all OnceExamples.g_lr_memo = true /\ OnceWF.well_formed_once_all OnceExamples.g_style = true.
+Proof. split; [exact OnceExamples.lr_memo_certified|exact OnceExamples.style_certified]. Qed.
 Print Assumptions C06_lr_memo_certified.
 
 (* ... and the certificate is what separates the known finding c06:reentrant-through-leftrec:
    @memoize M = a:A 'm' | 'k';  @leftrec A = m:*M 'x' | 'b';  is rejected, and on it the bound fails
-   in the model exactly as in the generated parser (M's body is started twice at offset 0 on "bm") *)
-Theorem C06_reentrant_not_certified : OnceWF.well_formed_once OnceExamples.g_reentrant = false.
-Proof. exact OnceExamples.reentrant_not_certified. Qed.
+   in the model exactly as in the generated parser (M's body is started twice at offset 0 on "bm").
+   The same happens when the plain rule of the usual style is memoized and the input starts with
+   a blank (Add's body is started twice at offset 1 on " 1+2"). *)
+Theorem C06_reentrant_not_certified :
+  OnceWF.well_formed_once OnceExamples.g_reentrant = false /\ OnceWF.well_formed_once OnceExamples.g_style_memo_add = false.
+Proof. split; [exact OnceExamples.reentrant_not_certified|exact OnceExamples.style_memo_add_not_certified]. Qed.
 Print Assumptions C06_reentrant_not_certified.
 
 Theorem C06_refuted_through_leftrec :
-  exists v st gl, OnceExamples.run_reentrant [98; 109]%N = (MOk v st, gl) /\ ~ NoDup (g_evals gl).
-Proof. exact OnceExamples.reentrant_evaluated_twice. Qed.
+  (exists v st gl, OnceExamples.run_reentrant [98; 109]%N = (MOk v st, gl) /\ ~ NoDup (g_evals gl)) /\
+  (exists v st gl, OnceExamples.run_doc OnceExamples.g_style_memo_add [69; 120; 112; 114]%N [32; 49; 43; 50]%N = (MOk v st, gl) /\
+                   ~ NoDup (g_evals gl)).
+Proof. split; [exact OnceExamples.reentrant_evaluated_twice|exact OnceExamples.style_memo_add_evaluated_twice]. Qed.
 Print Assumptions C06_refuted_through_leftrec.
